@@ -123,3 +123,39 @@ End Transport.
 (* monad :_ : `a is None or a is KLONG_UNDEFINED` *)
 Definition is_undefined (v : tval) : bool :=
   match v with TUndef true => true | _ => false end.
+
+(* ---- the sending side ----------------------------------------------------
+   stream_send_msg:  writer.write(encode_message(id, msg)); await writer.drain()
+   Several coroutines (callers, the listener answering requests) send on the
+   same writer of one event loop; a coroutine can only be suspended at an
+   `await`, so what reaches the transport is a sequence of atomic write()
+   calls.  `single_write` (regenerated from the source) says that a frame is
+   handed over in ONE write call; otherwise header and body are two writes with
+   a suspension point between them. *)
+Definition send_writes (single_write : bool) (m : msg) : list (list byte) :=
+  if single_write then [encode_message m]
+  else [fst m ++ enc32 (zlen (snd m)); snd m].
+
+(* nondeterministic scheduler: at each step some sender performs its next write *)
+Inductive wire : list (list (list byte)) -> list (list byte) -> Prop :=
+| wire_done pend : Forall (fun w => w = []) pend -> wire pend []
+| wire_step pre w ws post out :
+    wire (pre ++ ws :: post) out -> wire (pre ++ (w :: ws) :: post) (w :: out).
+
+(* executable scheduler for the correspondence: sched lists sender indices *)
+Fixpoint nth_write (i : nat) (pend : list (list (list byte))) : option (list byte * list (list (list byte))) :=
+  match pend, i with
+  | [], _ => None
+  | (w :: ws) :: rest, O => Some (w, ws :: rest)
+  | [] :: _, O => None
+  | p :: rest, S j => match nth_write j rest with Some (w, rest') => Some (w, p :: rest') | None => None end
+  end.
+
+Fixpoint run_sched (pend : list (list (list byte))) (sched : list nat) : list (list byte) :=
+  match sched with
+  | [] => []
+  | i :: s => match nth_write i pend with
+              | Some (w, pend') => w :: run_sched pend' s
+              | None => run_sched pend s
+              end
+  end.
